@@ -53,6 +53,11 @@ class Interp:
             return VTuple([self.fresh_value(et, "%s_%d" % (hint, i)) for i, et in enumerate(t.elems)], t)
         if isinstance(t, TRec):
             return VRec({fn: self.fresh_value(ft, "%s_%s" % (hint, fn)) for fn, ft in t.fields.items()}, t)
+        if isinstance(t, TMutRec):
+            e = p.fresh(hint, t.sort())
+            for fn, ft in t.fields.items():
+                self._assume_wf_expr(t.acc(fn, e), ft)
+            return t.wrap(e)
         if isinstance(t, TList):
             arr = p.fresh(hint + "_arr", z3.ArraySort(z3.IntSort(), t.elem.sort()))
             n = p.fresh(hint + "_n", z3.IntSort())
@@ -213,6 +218,7 @@ class Interp:
             return c
         elif isinstance(v, VDictRec):
             c = VDictRec({})
+            c.mt = v.mt
             memo[id(v)] = c
             for fn, fv in v.fields.items():
                 c.fields[fn] = self.clone_value(fv, memo)
@@ -365,6 +371,13 @@ class Interp:
         if isinstance(a, VSet) and isinstance(b, VSet) and a.kt == b.kt:
             k = z3.Const(self.path.fresh_name("eq_k"), a.kt.sort())
             return z3.ForAll([k], z3.Select(a.dom, k) == z3.Select(b.dom, k))
+        if isinstance(a, VDictRec) and isinstance(b, VDictRec) and (a.mt is not None or b.mt is not None):
+            # by-value records: python dict equality is structural
+            mt = a.mt if a.mt is not None else b.mt
+            try:
+                return unwrap(a, mt) == unwrap(b, mt)
+            except TypeError:
+                return z3.BoolVal(False)
         if isinstance(a, (VObj, VFunc, VClass, VDictRec, VOpaque)) or isinstance(b, (VObj, VFunc, VClass, VDictRec, VOpaque)):
             if isinstance(a, VClass) and isinstance(b, VClass):
                 return z3.BoolVal(a.name == b.name)
@@ -594,6 +607,9 @@ class Interp:
             return a
         if z3.is_false(c):
             return b
+        if isinstance(a, VDictRec) and isinstance(b, VDictRec) and (a.mt is not None or b.mt is not None) and self.spec:
+            mt = a.mt if a.mt is not None else b.mt   # by-value records (spec level only: the result is a copy)
+            return mt.wrap(z3.If(c, unwrap(a, mt), unwrap(b, mt)))
         if isinstance(a, (VObj, VFunc, VDictRec)) or isinstance(b, (VObj, VFunc, VDictRec)):
             if a is b:
                 return a
@@ -1056,10 +1072,21 @@ class Interp:
         if f.selfv is not None:
             args = [f.selfv] + list(args)
         self.bind_params(node, list(args), dict(kwargs), env, defaults_env)
+        if self.spec:
+            # lexical scoping: a quantified variable of the calling clause must not shadow a parameter (or local)
+            # of the spec helper / lambda that happens to carry the same name
+            hidden = {}
+            for nm in list(self.binders):
+                if nm in env.vars:
+                    hidden[nm] = self.binders.pop(nm)
+            try:
+                if isinstance(node, ast.Lambda):
+                    return self.ev(node.body, env)
+                return self.spec_call_body(node, env)
+            finally:
+                self.binders.update(hidden)
         if isinstance(node, ast.Lambda):
             return self.ev(node.body, env)
-        if self.spec:
-            return self.spec_call_body(node, env)
         self.depth += 1
         try:
             self.exec_block(node.body, env)
@@ -1615,9 +1642,15 @@ class Interp:
                 raise Unsupported("loop assigns list '%s' of unknown element type; declare it in locals" % nm)
             else:
                 env.find_env(nm).vars[nm] = self.fresh_value(typeof(cur), "lv_" + nm)
+        from .modset import _root
         for p in paths:
             try:
                 node = self.ver.parse_spec(p) if isinstance(p, str) else p
+                rt = _root(node)
+                if rt is not None and rt in names and env.lookup(rt) is None:
+                    # alias bound inside the loop body only (unbound at loop entry): what it aliases is
+                    # havoc'd through modset.alias_sources
+                    continue
                 saved = self.spec
                 self.spec = True
                 try:
@@ -1636,6 +1669,8 @@ class Interp:
                 if isinstance(v, (VSeq, VMap, VSet, VObj, VDictRec)):
                     self.havoc_inplace(v, "lm")
             except Unsupported:
+                if getattr(node, "_alias_src", False):
+                    continue   # a name of the binding expression that is not a variable here (builtin, comprehension var)
                 raise
 
     def ex_For(self, s, env):
